@@ -359,6 +359,24 @@ pub fn run(rep: &mut Report, driver: &str, workers: usize, thorough: bool, seed:
             cases.push(Case { op: "try:hmap:custom".into(), arg: enc_value(&mv), impl_out: goth, expect: Some(expect_m), tag: "custom-elem" });
         }
     }
+    // 6c. text that reaches a Value through the serializer (a `String` field, or a type that hands over its `Display` text)
+    //     and is extracted again: whatever the text looks like — a timestamp, a number, `true`, `none` — it is that String
+    for t in ["2015-07-30T03:26:13Z", "2015-07-30T05:26:13+02:00", "2015-07-30T03:26:13.5Z", "PT3600S", "42", "-1", "1.5", "i42", "true", "none", "null", "[1]", "", " x "] {
+        for via_display in [false, true] {
+            let input = if via_display { crate::serval::SerVal::DisplayText(t.to_string()) } else { crate::serval::SerVal::Str(t.to_string()) };
+            let wrapped = crate::serval::SerVal::Seq(vec![input.clone()]);
+            let got = guarded(|| match serde::Serialize::serialize(&input, reval::value::ser::ValueSerializer) {
+                Err(e) => enc_err(&e),
+                Ok(v) => ok_or_err(String::try_from(v).map(|s| format!("(str {})", hex(&s)))),
+            });
+            cases.push(Case { op: "ser-then-try:string".into(), arg: format!("{} {}", via_display, hex(t)), impl_out: got, expect: Some(format!("(ok (str {}))", hex(t))), tag: "custom-elem" });
+            let got = guarded(|| match serde::Serialize::serialize(&wrapped, reval::value::ser::ValueSerializer) {
+                Err(e) => enc_err(&e),
+                Ok(v) => ok_or_err(Vec::<String>::try_from(v).map(|ss| format!("(vec{})", ss.iter().map(|s| format!(" (str {})", hex(s))).collect::<String>()))),
+            });
+            cases.push(Case { op: "ser-then-try:vec:string".into(), arg: format!("{} {}", via_display, hex(t)), impl_out: got, expect: Some(format!("(ok (vec (str {})))", hex(t))), tag: "custom-elem" });
+        }
+    }
     // 7. scalar `From<T> for Value` and back through `TryFrom<Value> for T`: the original, bit for bit
     //    (the expected image is built with the variant constructor, never through the conversion under test)
     scalar_roundtrips(&mut cases, &mut rng, thorough);
